@@ -281,6 +281,7 @@ type observation struct {
 	RunCtx   map[string]*node  // RootContext of every run of the session, by run index
 	Events   []string          // projected events of the sprint (texts the engine evaluated)
 	Tpls     []tplOut
+	Snaps    []*runSnap        // the model's inputs per run, taken at observation time
 	Session  flows.Session
 	Env      envs.Environment
 }
@@ -341,16 +342,22 @@ func projectEvents(evs []flows.Event) []string {
 	return out
 }
 
-func observe(point string, session flows.Session, sprint flows.Sprint, tpls func(*node) []string) *observation {
+func observe(point string, session flows.Session, sprint flows.Sprint, redact bool, tpls func(*node) []string) *observation {
 	o := &observation{Point: point, Status: string(session.Status()), Session: session, Env: session.Environment(), RunCtx: map[string]*node{}}
 	if cc := session.CurrentContext(); cc != nil {
 		o.Ctx = walk(session.Environment(), cc, 0)
 	}
 	for i, r := range session.Runs() {
-		o.RunCtx[fmt.Sprintf("run%d", i)] = walk(session.MergedEnvironment(), types.NewXObject(r.RootContext(session.MergedEnvironment())), 0)
+		tree := walk(session.MergedEnvironment(), types.NewXObject(r.RootContext(session.MergedEnvironment())), 0)
+		o.RunCtx[fmt.Sprintf("run%d", i)] = tree
+		o.Snaps = append(o.Snaps, snapRun(session, r, redact, tree))
 	}
 	if sprint != nil {
 		o.Events = projectEvents(sprint.Events())
+	}
+	if tpls != nil {
+		// generated templates are evaluated now, on the session state of this observation point
+		evalTemplates(o, tpls(o.Ctx))
 	}
 	return o
 }
@@ -388,7 +395,7 @@ func evalTemplates(o *observation, tpls []string) {
 	}
 }
 
-func runSession(sc *scenario, side int, redact bool, seed uint64) *sessionRun {
+func runSession(sc *scenario, side int, redact bool, seed uint64, tplsFor func(point int, ctx *node) []string) *sessionRun {
 	sr := &sessionRun{}
 	fail := func(stage string, err error) *sessionRun {
 		sr.Err = stage + ": " + err.Error()
@@ -418,7 +425,11 @@ func runSession(sc *scenario, side int, redact bool, seed uint64) *sessionRun {
 	if err != nil {
 		return fail("new-session", err)
 	}
-	sr.Obs = append(sr.Obs, observe("after-trigger", session, sprint, nil))
+	tp := func(ctx *node) []string { return tplsFor(len(sr.Obs), ctx) }
+	if tplsFor == nil {
+		tp = nil
+	}
+	sr.Obs = append(sr.Obs, observe("after-trigger", session, sprint, redact, tp))
 	for i := range sc.Resumes {
 		if session.Status() != flows.SessionStatusWaiting {
 			break
@@ -431,7 +442,7 @@ func runSession(sc *scenario, side int, redact bool, seed uint64) *sessionRun {
 		if err != nil {
 			return fail(fmt.Sprintf("resume-%d-apply", i), err)
 		}
-		sr.Obs = append(sr.Obs, observe(fmt.Sprintf("after-resume-%d", i), session, sprint, nil))
+		sr.Obs = append(sr.Obs, observe(fmt.Sprintf("after-resume-%d", i), session, sprint, redact, tp))
 	}
 	return sr
 }
